@@ -302,3 +302,17 @@ func boolLocalDefs(info *types.Info, body *ast.BlockStmt) map[types.Object]ast.E
 	}
 	return out
 }
+
+// DebugIndexGuard lists the unguarded constant slice indexes of the given packages (advisory scan).
+func DebugIndexGuard(p *eng.Program, pkgs []string) {
+	c := eng.NewCtx(p, "DEBUG", "debug")
+	ruleIndexGuard(c, "INDEX-GUARD", pkgs, 0)
+	n := 0
+	for _, o := range c.Obs {
+		if o.Status != eng.Discharged {
+			n++
+			fmt.Printf("%s\t%s\n", o.Pos, o.Construct)
+		}
+	}
+	fmt.Printf("sites=%d unguarded=%d\n", len(c.Obs), n)
+}
